@@ -17,6 +17,8 @@
 #include <set>
 #include <sstream>
 
+#include <unistd.h>
+
 #include "gen.h"
 #include "prop.h"
 #include "spec.h"
@@ -227,6 +229,7 @@ struct Traits
     bool nonTrivialExponent = false;
     bool prefixOutOfRegime = false, multiplierOutOfRegime = false; // which attribute breaks the exponent-1 regime
     bool scaledRefToMultiLeaf = false; // a child with prefix/multiplier refers to a user units that expands to != 1 leaf references
+    bool fractional = false; // an exponent that is not exact in binary (a tenth) occurs
     bool importRevisit = false; // an import into model Y is met after an import located in Y was met earlier in the same walk
 };
 
@@ -312,6 +315,9 @@ void walkTraits(const RefUniverse &r, const std::string &name, double acc, Trait
     for (const auto &c : it->second.units) {
         if (c.exponent != 1.0) {
             t.nonTrivialExponent = true;
+        }
+        if (std::fabs(c.exponent * 2.0 - std::round(c.exponent * 2.0)) > 1e-12) {
+            t.fractional = true;
         }
         if ((c.multiplier != 1.0 || (!c.prefix.empty() && prefixValue(c.prefix) != 0)) && r.q.count(c.ref) != 0 && leafCount(r, c.ref) != 1) {
             t.scaledRefToMultiLeaf = true;
@@ -443,11 +449,42 @@ UnitsSpec genDefinition(GenCtx &g, size_t mi, const std::string &name, const std
     Src &src = g.src;
     UnitsSpec u;
     u.name = name;
-    unsigned strat = static_cast<unsigned>(src.below(6));
+    unsigned strat = static_cast<unsigned>(src.below(7));
     Probe p(g.w);
     const ModelU &m = g.w.models[mi];
     std::string j = prev.empty() ? std::string() : src.pick(prev);
     bool jOk = !j.empty() && p.depth(m, j) <= 3;
+    if (strat == 6) { // fractional exponents (tenths, not exact in binary) that cancel, in a tape-chosen order, next to a carrier
+        static const std::vector<std::vector<double>> triples = {{0.1, 0.2, -0.3}, {0.7, -0.4, -0.3}, {0.1, 0.7, -0.8}, {1.1, -0.2, -0.9}, {0.3, 0.6, -0.9}, {0.1, 0.2, 0.7}};
+        std::vector<double> t = src.pick(triples);
+        size_t rot = src.below(3);
+        std::rotate(t.begin(), t.begin() + static_cast<long>(rot), t.end());
+        if (src.flip(50)) {
+            std::swap(t[0], t[1]);
+        }
+        std::string x = src.pick(g.palette);
+        if ((findUnits(m.spec, x) == nullptr && !isStandardUnit(x)) || p.red(m, x).log10scale != 0.0) {
+            x = "metre";
+        }
+        UnitSpec carrier;
+        carrier.ref = jOk && src.flip(50) ? j : g.palette[0];
+        if (!g.inRegimeOnly && src.flip(30)) {
+            carrier.prefix = genPrefix(src);
+        }
+        size_t at = src.below(4); // position of the carrier among the fractional children
+        for (size_t k = 0; k <= 3; ++k) {
+            if (k == at) {
+                u.units.push_back(carrier);
+            }
+            if (k < 3) {
+                UnitSpec c;
+                c.ref = x;
+                c.exponent = t[k];
+                u.units.push_back(c);
+            }
+        }
+        return u;
+    }
     if (strat == 2 && jOk) { // scaled wrapper
         UnitSpec c;
         c.ref = j;
@@ -679,6 +716,9 @@ struct Member
     bool inMain = false; // a units of the main model (usable in consumer models)
     bool standard = false;
     bool userBase = false; // a user-defined base unit appears in the reduction
+    bool residue = false; // an exponent of the reference reduction sums to zero only up to rounding
+    bool parentless = false; // a units that belongs to no model
+    bool undefinedBehindImport = false; // an import that resolves, to a definition with a dangling reference
     int derivedFrom = -1; // member index
     std::string derivedKind; // child-permutation | wrap | import-indirection
 };
@@ -688,13 +728,58 @@ bool relClose(double a, double b, double tol)
     return std::fabs(a - b) <= tol * std::max(std::fabs(a), std::fabs(b));
 }
 
+// Exponents are sums of products of decimal fractions: equal means equal to 1e-9 (generated exponents are multiples
+// of 0.1 or 0.5 nested at most four deep, so two different exponents differ by at least 1e-4).
+const double EXP_TOL = 1e-9;
+
+bool sameBaseT(const UnitsRed &a, const UnitsRed &b)
+{
+    if (!a.defined || !b.defined) {
+        return false;
+    }
+    for (const auto &x : a.base) {
+        auto it = b.base.find(x.first);
+        if (std::fabs(x.second - (it == b.base.end() ? 0.0 : it->second)) > EXP_TOL) {
+            return false;
+        }
+    }
+    for (const auto &x : b.base) {
+        if (a.base.find(x.first) == a.base.end() && std::fabs(x.second) > EXP_TOL) {
+            return false;
+        }
+    }
+    return true;
+}
+
+// Removes what rounding left of an exponent that sums to zero; true when there was such a residue.
+bool dropResidues(UnitsRed &r)
+{
+    bool any = false;
+    for (auto it = r.base.begin(); it != r.base.end();) {
+        if (std::fabs(it->second) <= EXP_TOL) {
+            any = true;
+            it = r.base.erase(it);
+        } else {
+            ++it;
+        }
+    }
+    return any;
+}
+
 std::string classOfPair(const Member &a, const Member &b)
 {
     if (a.obj == nullptr || b.obj == nullptr) {
         return "null";
     }
     if (!a.red.defined || !b.red.defined) {
-        return "undefined";
+        bool behind = (!a.red.defined && a.undefinedBehindImport) || (!b.red.defined && b.undefinedBehindImport);
+        bool parentless = (!a.red.defined && a.parentless) || (!b.red.defined && b.parentless);
+        return behind ? "undefined-behind-resolved-import" : parentless ? "undefined-parentless" : "undefined";
+    }
+    if (a.residue || b.residue || a.traits.fractional || b.traits.fractional) {
+        // exponents that are not exact in binary (tenths): sums that should be 0 or 3 leave 1e-17 behind, depending on
+        // the order of the children and on where an outer exponent is multiplied in
+        return "exponent-rounding-residue";
     }
     if ((a.standard && a.red.log10scale != 0.0) || (b.standard && b.red.log10scale != 0.0)) {
         return "standard-units-with-scale"; // a Units object that *is* gram or litre (what a variable with units="litre" holds)
@@ -839,24 +924,21 @@ struct ConsumerEnv
     Case &c;
 };
 
-// A consumer model can be rejected for reasons that are not C08's subject; such models are counted and not judged:
-//  * "Cyclic units exist": the world is acyclic by construction - a false positive of the validator's units-cycle
-//    check (seen when a units is referenced twice and reaches an import); import/cycle validation is C07's subject;
-//  * "Cyclic dependencies were found": the validator's own never-popped import history (validator.cpp validateUnits),
-//    same pattern and same inputs as the known finding import-revisited-after-chain.
-bool unrelatedRejection(ConsumerEnv &e, const std::string &d)
+// The worlds are acyclic by construction and every import is resolved when consumers are built: a report of a units
+// cycle or of an import cycle is a wrong verdict of the Validator (and of the Analyser, which validates first) on a valid
+// model. It is reported with its own signature and the rest of the consumer model is not judged.
+//   history: "Cyclic units exist" for a units referenced twice that reaches an import, and for names that coincide across
+//   models (repaired in /repo by 339068d); "Cyclic dependencies were found" from validateUnits' never-popped import
+//   history (made worse by c498b68: every second reference to an imported units; notes/C08-fix-5.diff).
+bool falseCycleReport(ConsumerEnv &e, const std::string &site, const std::string &d)
 {
     if (d.find("Cyclic units exist") != std::string::npos) {
-        e.c.count("consumer_model_rejected_by_false_cycle_report_not_judged");
+        e.fails.add("C08.consumer-verdict|" + site + "|false-units-cycle-report", d);
         return true;
     }
     if (d.find("Cyclic dependencies were found") != std::string::npos) {
-        for (const auto &m : e.members) {
-            if (m.traits.importRevisit) {
-                e.c.count("consumer_model_rejected_import-revisited-after-chain_not_judged");
-                return true;
-            }
-        }
+        e.fails.add("C08.consumer-verdict|" + site + "|false-import-cycle-report", d);
+        return true;
     }
     return false;
 }
@@ -888,16 +970,7 @@ void consumerValidator(ConsumerEnv &e, const std::vector<ConsumerPair> &pairs, b
     if (flatten) {
         model = b.importer->flattenModel(b.main);
         if (model == nullptr) {
-            bool revisit = false;
-            for (const auto &m : e.members) {
-                revisit = revisit || m.traits.importRevisit;
-            }
-            if (revisit) {
-                // Model::hasUnresolvedImports() shares the never-popped import history of the known finding
-                e.c.count("flatten_refused_import-revisited-after-chain_not_judged");
-            } else {
-                e.fails.add("C08.harness|flatten-null", "flattenModel returned null\n" + issuesText(b.importer));
-            }
+            e.fails.add("C08.harness|flatten-null", "flattenModel returned null\n" + issuesText(b.importer));
             return;
         }
         e.c.cls("consumer:flattened");
@@ -924,7 +997,7 @@ void consumerValidator(ConsumerEnv &e, const std::vector<ConsumerPair> &pairs, b
         text[k] = d;
     }
     if (!unexpected.empty()) {
-        if (unrelatedRejection(e, unexpected)) {
+        if (falseCycleReport(e, site, unexpected)) {
             return;
         }
         if (flatten) {
@@ -939,7 +1012,7 @@ void consumerValidator(ConsumerEnv &e, const std::vector<ConsumerPair> &pairs, b
         const Member &A = e.members[pairs[k].a], &B = e.members[pairs[k].b];
         std::string cls = classOfPair(A, B);
         bool imported = A.traits.importInvolved || B.traits.importInvolved;
-        bool compatRef = sameBase(A.red, B.red);
+        bool compatRef = sameBaseT(A.red, B.red);
         std::string what = "x:" + A.label + " ~ x2:" + B.label + " reference compatible=" + (compatRef ? "1" : "0") + " Units::compatible=" + (e.C[pairs[k].a][pairs[k].b] ? "1" : "0") + " issue: " + (reported[k] != 0 ? text[k] : "(none)");
         e.c.count("consumer_validator_pairs");
         std::string loc = (!flatten && imported) ? "imported-units" : cls;
@@ -953,6 +1026,13 @@ void consumerValidator(ConsumerEnv &e, const std::vector<ConsumerPair> &pairs, b
             continue;
         }
         if (reported[k] == 0) {
+            continue;
+        }
+        if (flatten) {
+            // flattenModel may replace a library units by an equivalent one of the main model with another structure
+            // (e.g. metre by metre.metre^0.1.metre^0.2.metre^-0.3), so the localisation of the known once-per-leaf
+            // defect of the hint cannot be read off the world: the hint is judged on unflattened models only
+            e.c.count("flattened_hint_not_judged");
             continue;
         }
         // scale hint: "u1 over u2" as log10, u1 being the units named first in the message
@@ -1010,7 +1090,7 @@ void consumerAnalyser(ConsumerEnv &e, const std::vector<ConsumerPair> &pairs, bo
     std::string math = "<math xmlns=\"http://www.w3.org/1998/Math/MathML\">";
     for (size_t k = 0; k < pairs.size(); ++k) {
         const Member &A = e.members[pairs[k].a], &B = e.members[pairs[k].b];
-        bool compat = sameBase(A.red, B.red) && e.C[pairs[k].a][pairs[k].b] != 0;
+        bool compat = sameBaseT(A.red, B.red) && e.C[pairs[k].a][pairs[k].b] != 0;
         std::string n = std::to_string(k);
         if (compat) {
             connected[k] = 1;
@@ -1046,16 +1126,7 @@ void consumerAnalyser(ConsumerEnv &e, const std::vector<ConsumerPair> &pairs, bo
     if (flatten) {
         model = b.importer->flattenModel(b.main);
         if (model == nullptr) {
-            bool revisit = false;
-            for (const auto &m : e.members) {
-                revisit = revisit || m.traits.importRevisit;
-            }
-            if (revisit) {
-                // Model::hasUnresolvedImports() shares the never-popped import history of the known finding
-                e.c.count("flatten_refused_import-revisited-after-chain_not_judged");
-            } else {
-                e.fails.add("C08.harness|flatten-null", "flattenModel returned null\n" + issuesText(b.importer));
-            }
+            e.fails.add("C08.harness|flatten-null", "flattenModel returned null\n" + issuesText(b.importer));
             return;
         }
     }
@@ -1067,7 +1138,7 @@ void consumerAnalyser(ConsumerEnv &e, const std::vector<ConsumerPair> &pairs, bo
     std::vector<int> warned(pairs.size(), 0);
     std::vector<std::string> wtext(pairs.size());
     for (size_t i = 0; i < an->issueCount(); ++i) {
-        if (unrelatedRejection(e, an->issue(i)->description())) {
+        if (falseCycleReport(e, site, an->issue(i)->description())) {
             return;
         }
     }
@@ -1172,7 +1243,7 @@ void consumerAnalyser(ConsumerEnv &e, const std::vector<ConsumerPair> &pairs, bo
                 if (!agrees(fCode, fAst)) {
                     e.fails.add("C08.consumer-scale|generator|" + cls, what + " AST factor " + fmtDouble(fAst) + " code: " + stmt);
                 }
-                bool unitsReliable = !(A.traits.importRevisit || B.traits.importRevisit); // the known isDefined() defect makes f = 0 there
+                bool unitsReliable = true;
                 if (unitsReliable) {
                     if (!agrees(fAst, fUnits)) {
                         e.fails.add("C08.consumer-scale|" + site + "|" + cls, what + " AST factor " + fmtDouble(fAst));
@@ -1189,7 +1260,7 @@ void consumerAnalyser(ConsumerEnv &e, const std::vector<ConsumerPair> &pairs, bo
             }
         }
         // --- units warning of the analyser's own reduction
-        bool compatRef = sameBase(A.red, B.red);
+        bool compatRef = sameBaseT(A.red, B.red);
         if (regime) {
             double dk = A.red.log10scale - B.red.log10scale;
             bool equivalentRef = compatRef && std::fabs(dk) < 1e-9;
@@ -1223,7 +1294,7 @@ void run(Src &src, Case &c)
     bool undefinedMember = src.flip(12);
     bool unresolved = src.flip(6);
     bool probe = src.flip(6);
-    bool orphan = src.flip(10);
+    bool orphan = src.flip(25);
     bool reverse = src.flip(30);
     bool collide = src.flip(30);
     size_t nDerived = src.below(4);
@@ -1461,9 +1532,15 @@ void run(Src &src, Case &c)
         // a units that belongs to no model: defined iff all its references are standard units
         orphanSpec.name = "orphan";
         UnitSpec ch;
-        ch.ref = src.flip(70) ? g.palette[0] : std::string("u0");
+        ch.ref = src.flip(50) ? g.palette[0] : std::string("u0");
         ch.prefix = src.flip(50) ? genPrefix(src) : std::string();
         orphanSpec.units.push_back(ch);
+        if (src.flip(40)) {
+            UnitSpec ch2;
+            ch2.ref = src.pick(paletteCandidates());
+            ch2.exponent = exponents()[src.below(exponents().size())];
+            orphanSpec.units.push_back(ch2);
+        }
         UnitsSpec q = orphanSpec;
         q.name = "O/orphan";
         uni.q[q.name] = q; // child reference stays unqualified: only standard names resolve
@@ -1471,7 +1548,10 @@ void run(Src &src, Case &c)
         m.label = "orphan";
         m.qname = "O/orphan";
         m.obj = Units::create("orphan");
-        m.obj->addUnit(ch.ref, ch.prefix, 1.0, 1.0);
+        for (const auto &oc : orphanSpec.units) {
+            m.obj->addUnit(oc.ref, oc.prefix, oc.exponent, oc.multiplier);
+        }
+        m.parentless = true;
         members.push_back(m);
     }
     {
@@ -1492,6 +1572,12 @@ void run(Src &src, Case &c)
         } else {
             m.red = reduceUnits(m.qname, lkResolve);
             m.redCopy = reduceUnits(m.qname, lkCopy);
+            m.residue = dropResidues(m.red);
+            dropResidues(m.redCopy);
+        }
+        {
+            auto qi = uni.q.find(m.qname);
+            m.undefinedBehindImport = !m.red.defined && qi != uni.q.end() && qi->second.import >= 0 && !uni.follow(m.qname).empty();
         }
         walkTraits(uni, m.qname, 1.0, m.traits);
         regimeTraits(uni, lkResolve, m.qname, m.traits);
@@ -1524,7 +1610,11 @@ void run(Src &src, Case &c)
         std::ostringstream o;
         o << worldText(w);
         if (orphan) {
-            o << "free-standing units orphan = " << childText(orphanSpec.units[0]) << "\n";
+            o << "free-standing units orphan =";
+            for (const auto &oc : orphanSpec.units) {
+                o << " " << childText(oc);
+            }
+            o << "\n";
         }
         o << "pair universe:";
         for (const auto &m : members) {
@@ -1553,6 +1643,55 @@ void run(Src &src, Case &c)
         }
     }
     c.count("pairs", static_cast<long>(N * N));
+    // scalingFactor(a, b, false): "ignore base units" - still 0 for undefined / null units, and the same number as with
+    // the check for compatible ones. A parentless units with a dangling reference goes through a forked child first:
+    // a crash there must not take the worker (and the other findings of the case) with it.
+    std::vector<std::vector<double>> F0(N, std::vector<double>(N, 0.0));
+    {
+        bool safe = true;
+        for (size_t i = 0; i < N && safe; ++i) {
+            if (members[i].parentless && !members[i].red.defined) {
+                struct Arg
+                {
+                    const std::vector<Member> *members;
+                    size_t i;
+                } arg {&members, i};
+                std::string diag;
+                int rc = runIsolated(
+                    [](void *pv) {
+                        auto *a = static_cast<Arg *>(pv);
+                        for (const auto &m : *a->members) {
+                            double x = Units::scalingFactor((*a->members)[a->i].obj, m.obj, false);
+                            double y = Units::scalingFactor(m.obj, (*a->members)[a->i].obj, false);
+                            if (x != 0.0 || y != 0.0) {
+                                _exit(3);
+                            }
+                        }
+                    },
+                    &arg, 20, &diag);
+                if (rc != 0) {
+                    safe = false;
+                    std::string kind = rc == 3 ? "nonzero" : "crash";
+                    fails.add("C08.factor-nocheck|" + kind + "|undefined-parentless", members[i].label + ": scalingFactor(a, x, false) with a units that belongs to no model and refers to a non-standard units: child status " + std::to_string(rc) + "\n" + diag.substr(0, 1500));
+                }
+            }
+        }
+        if (safe) {
+            for (size_t i = 0; i < N; ++i) {
+                for (size_t j = 0; j < N; ++j) {
+                    F0[i][j] = Units::scalingFactor(members[i].obj, members[j].obj, false);
+                    bool bothDef = members[i].obj != nullptr && members[j].obj != nullptr && members[i].red.defined && members[j].red.defined;
+                    std::string cls0 = classOfPair(members[i], members[j]);
+                    if (!bothDef && F0[i][j] != 0.0) {
+                        fails.add("C08.factor-nocheck|undefined|" + cls0, members[i].label + " vs " + members[j].label + ": scalingFactor(a,b,false)=" + fmtDouble(F0[i][j]) + " for an undefined / null units");
+                    } else if (C[i][j] != 0 && F0[i][j] != F[i][j]) {
+                        fails.add("C08.factor-nocheck|vs-checked|" + cls0, members[i].label + " vs " + members[j].label + ": scalingFactor(a,b,false)=" + fmtDouble(F0[i][j]) + " scalingFactor(a,b)=" + fmtDouble(F[i][j]));
+                    }
+                }
+            }
+            c.count("nocheck_pairs", static_cast<long>(N * N));
+        }
+    }
 
     // ---- pair oracles
     bool anyNonTrivial = false;
@@ -1563,9 +1702,15 @@ void run(Src &src, Case &c)
             std::string cls = classOfPair(A, B);
             std::string what = A.label + " vs " + B.label;
             bool bothDefined = A.obj != nullptr && B.obj != nullptr && A.red.defined && B.red.defined;
-            bool compatRef = bothDefined && sameBase(A.red, B.red);
-            bool compatCopy = bothDefined && sameBase(A.redCopy, B.redCopy);
+            bool compatRef = bothDefined && sameBaseT(A.red, B.red);
+            bool compatCopy = bothDefined && sameBaseT(A.redCopy, B.redCopy);
             double f = F[i][j];
+            if (bothDefined && C[i][j] != 0 && ((f == 0.0 && std::isinf(F[j][i])) || (std::isinf(f) && F[j][i] == 0.0))) {
+                // 10^(+-308 and more) in the library's own accumulation: pow() underflows one way and overflows the other;
+                // the laws are about representable factors
+                c.count("factor_overflow_not_judged");
+                continue;
+            }
             // internal coherence of the three functions (claimed for every input)
             if ((f > 0.0) != (C[i][j] != 0) || (C[i][j] == 0 && f != 0.0) || std::isnan(f)) {
                 fails.add("C08.factor-sign|" + cls, what + ": compatible=" + std::to_string(C[i][j]) + " scalingFactor=" + fmtDouble(f));
@@ -1587,10 +1732,12 @@ void run(Src &src, Case &c)
                 continue;
             }
             if (compatRef != compatCopy) {
-                // identity of a library's user base unit reached through two different import paths: the CellML text
-                // can be read both ways; not judged
+                // A library's user base unit reached through two import paths, one of them an import of the base unit
+                // itself under another name: an import *is* the units it imports (CellML 2.0 import semantics, and what
+                // Units does for every non-base units), so the reference that follows imports decides.
                 ++ambiguous;
-                continue;
+                cls = "imported-base-unit-alias";
+                c.cls("has:imported-base-unit-alias-pair");
             }
             if (i != j && std::max(A.depth, B.depth) >= 2 && (A.red.log10scale != 0.0 || B.red.log10scale != 0.0 || A.traits.nonTrivialExponent || B.traits.nonTrivialExponent)) {
                 anyNonTrivial = true;
@@ -1644,7 +1791,7 @@ void run(Src &src, Case &c)
         }
     }
     if (ambiguous != 0) {
-        c.count("excluded:ambiguous-identity-of-imported-base-unit", ambiguous);
+        c.count("imported_base_unit_alias_pairs", ambiguous);
     }
     // reflexivity
     for (size_t i = 0; i < N; ++i) {
@@ -1667,7 +1814,7 @@ void run(Src &src, Case &c)
                 ++triples;
                 if (C[i][k] == 0) {
                     fails.add("C08.compatible-transitive|" + classOfPair(members[i], members[k]), members[i].label + " ~ " + members[j].label + " ~ " + members[k].label + " but not " + members[i].label + " ~ " + members[k].label);
-                } else if (!relClose(F[i][k], F[i][j] * F[j][k], 1e-9)) {
+                } else if (std::isfinite(F[i][j] * F[j][k]) && F[i][j] * F[j][k] != 0.0 && std::isfinite(F[i][k]) && F[i][k] != 0.0 && !relClose(F[i][k], F[i][j] * F[j][k], 1e-9)) {
                     fails.add("C08.factor-cocycle|" + classOfPair(members[i], members[k]),
                               members[i].label + "," + members[j].label + "," + members[k].label + ": f(a,c)=" + fmtDouble(F[i][k]) + " f(a,b)*f(b,c)=" + fmtDouble(F[i][j] * F[j][k]));
                 }
@@ -1688,7 +1835,7 @@ void run(Src &src, Case &c)
             c.count("metamorphic_import_not_applicable");
             continue;
         }
-        std::string loc = D.derivedKind + ((S.traits.importRevisit || D.traits.importRevisit) ? "|import-revisited-after-chain" : (S.traits.importExpPath || D.traits.importExpPath) ? "|import-child-exponent" : "");
+        std::string loc = D.derivedKind + ((S.residue || D.residue || S.traits.fractional) ? "|exponent-rounding-residue" : (S.traits.importRevisit || D.traits.importRevisit) ? "|import-revisited-after-chain" : (S.traits.importExpPath || D.traits.importExpPath) ? "|import-child-exponent" : "");
         bool bad = false;
         for (size_t x = 0; x < N && !bad; ++x) {
             if (x == d || x == s) {
@@ -1722,10 +1869,6 @@ void run(Src &src, Case &c)
     if (anyUndefinedInMain) {
         c.count("consumers_skipped_undefined_member");
         c.cls("has:undefined");
-    } else if (collide && hasImports) {
-        // the validator's units-cycle check compares names across models (false "Cyclic units exist" when the importing
-        // units is named like a units of the library) - an import-validation matter (C07), kept out of the consumer models
-        c.count("consumers_skipped_cross_model_name_collision");
     } else if (nConsumers == 0) {
         c.cls("consumer:none");
     } else {
@@ -1739,7 +1882,7 @@ void run(Src &src, Case &c)
         std::vector<ConsumerPair> compatiblePairs;
         for (size_t i : usable) {
             for (size_t j : usable) {
-                if (i != j && sameBase(members[i].red, members[j].red) && sameBase(members[i].redCopy, members[j].redCopy)) {
+                if (i != j && sameBaseT(members[i].red, members[j].red) && sameBaseT(members[i].redCopy, members[j].redCopy)) {
                     compatiblePairs.push_back({i, j});
                 }
             }
@@ -1764,7 +1907,7 @@ void run(Src &src, Case &c)
                 p.a = src.pick(usable);
                 p.b = src.pick(usable);
             }
-            if (sameBase(members[p.a].red, members[p.b].red) != sameBase(members[p.a].redCopy, members[p.b].redCopy)) {
+            if (sameBaseT(members[p.a].red, members[p.b].red) != sameBaseT(members[p.a].redCopy, members[p.b].redCopy)) {
                 continue;
             }
             pairs.push_back(p);
@@ -1781,9 +1924,25 @@ void run(Src &src, Case &c)
                 }
             }
         }
+        // flattenModel maps a library base unit onto an alias the main model imports for it in some definitions and
+        // adds it under its own name for others (order dependent; a flattening matter, C06): pairs over a user base unit
+        // stay out of the flattened consumer models when the main model imports a base unit directly
+        bool baseAliasInMain = false;
+        for (const auto &u : w.models[0].spec.units) {
+            if (u.import >= 0) {
+                std::string f = uni.follow("M/" + u.name);
+                if (!f.empty() && uni.q.at(f).units.empty()) {
+                    baseAliasInMain = true;
+                }
+            }
+        }
         std::vector<ConsumerPair> local, imported;
         for (const auto &p : pairs) {
             bool imp = members[p.a].traits.importInvolved || members[p.b].traits.importInvolved;
+            if (imp && baseAliasInMain && (members[p.a].userBase || members[p.b].userBase)) {
+                c.count("consumers_skipped_flatten_base_unit_alias");
+                continue;
+            }
             (imp ? imported : local).push_back(p);
         }
         ConsumerEnv env {w, members, F, C, probe, reverse, fails, c};
@@ -1814,18 +1973,22 @@ void run(Src &src, Case &c)
     c.nontrivial = anyNonTrivial;
     c.cls("libs=" + std::to_string(nLibs));
     c.cls(inRegimeOnly ? "generator:in-regime-only" : "generator:mixed");
-    bool anyImport = false, anyUserBase = false, anyOut = false, anyExpPath = false;
+    bool anyImport = false, anyUserBase = false, anyOut = false, anyExpPath = false, anyFractional = false, anyParentlessUndefined = false;
     int maxDepth = 0;
     for (const auto &m : members) {
         anyImport = anyImport || m.traits.importInvolved;
         anyUserBase = anyUserBase || m.userBase;
         anyOut = anyOut || (m.red.defined && !m.red.exp1Regime);
         anyExpPath = anyExpPath || m.traits.importExpPath;
+        anyFractional = anyFractional || m.traits.fractional;
+        anyParentlessUndefined = anyParentlessUndefined || (m.parentless && !m.red.defined);
         maxDepth = std::max(maxDepth, m.depth);
     }
     if (anyImport) c.cls("imported-units");
     if (anyUserBase) c.cls("user-base-unit");
     if (anyExpPath) c.cls("imported-child-with-exponent");
+    if (anyFractional) c.cls("fractional-exponents");
+    if (anyParentlessUndefined) c.cls("parentless-undefined-units");
     if (maxDepth >= 3) c.cls("depth>=3");
     if (maxDepth >= 4) c.cls("depth>=4");
     if (unresolved && hasImports) c.cls("imports-unresolved");
@@ -1856,18 +2019,18 @@ namespace vp {
 Property property = {
     "C08",
     "exploration",
-    "rapidcheck tapes generate a main model with 3-12 acyclic units definitions (31 standard units, 0-3 user base units, children with named/integer prefixes, exponents from {0,+-0.5,+-1,1.5,+-2,2.5,+-3}, "
-    "positive multipliers, nesting depth <= 4; strategies: fresh / scaled wrapper / power / SI expansion of an earlier definition), 0-2 in-memory library models (chained imports) resolved through Importer::addModel+resolveImports, "
-    "derived definitions (child permutation, {a^1}, import of a renamed copy), two free-standing standard units, optionally a free-standing units, an undefined member, unresolved imports, and nullptr. "
+    "rapidcheck tapes generate a main model with 3-12 acyclic units definitions (31 standard units, 0-3 user base units, children with named/integer prefixes, exponents from {0,+-0.5,+-1,1.5,+-2,2.5,+-3} plus triples of tenths (0.1,0.2,-0.3 ...) in tape-chosen order that cancel only up to rounding, "
+    "positive multipliers, nesting depth <= 4; strategies: fresh / scaled wrapper / power / SI expansion / respelling (p u)^e = (p*e u).u / cancelling fractional exponents), 0-2 in-memory library models (chained imports) resolved through Importer::addModel+resolveImports, "
+    "derived definitions (child permutation, {a^1}, import of a renamed copy), two free-standing standard units, in a quarter of the cases a units that belongs to no model (half of them with a dangling reference), an undefined member, unresolved imports, and nullptr. "
     "All ordered pairs and all triples of this universe are judged: reference base-exponent maps (vp::reduceUnits over a qualified-name universe) decide compatible; laws (reflexive/symmetric/transitive, f>0 iff compatible, "
-    "f(a,b)f(b,a)=1, f(a,c)=f(a,b)f(b,c), equivalent iff compatible and f==1) on the library's own matrices; in the exponent-1 regime f(a,b)=scale(b)/scale(a) of the reference; 1-3 sampled pairs per case go through "
+    "f(a,b)f(b,a)=1, f(a,c)=f(a,b)f(b,c), equivalent iff compatible and f==1; scalingFactor(a,b,false) equal to scalingFactor(a,b) for compatible units and 0 for undefined / null ones) on the library's own matrices; in the exponent-1 regime f(a,b)=scale(b)/scale(a) of the reference; 1-3 sampled pairs per case go through "
     "Validator (connection verdict + multiplication-factor hint), Analyser (AST factor, units warning) and Generator (C statement). "
     "Non-trivial: the case has a judged pair of distinct defined units with a definition of depth >= 2 and a non-unit scale or a non-trivial exponent. Distinct = hash of the world text.",
     run,
     nullptr,
-    {"exponents are generated so that every sum/product is exact in binary (no tolerance question in compatible)", "multipliers are positive (log10 of the scale exists)",
+    {"exponents are halves (exact in binary) or tenths nested at most four deep: two different exponents differ by >= 1e-4, equal ones by <= 1e-13, and the reference compares them to 1e-9", "multipliers are positive (log10 of the scale exists)",
      "cyclic units are not generated (C01/C07)", "relative tolerance 1e-9 on factors; 0<|f-1|<1e-12 is floating noise of log10/pow and is counted, not judged",
-     "a library's user base unit reached through two different import paths (pair verdict differs between 'import = same unit' and 'import = copy') is not judged; base-unit names never collide across models",
+     "an import is the units it imports, also for a base unit imported under another name (the reference follows imports); such pairs are kept out of the *flattened* consumer models, because flattening turns the alias into a base unit of its own; base-unit names never collide across models",
      "consumer checks on flattened models only when no units name occurs in two models (flattening name collisions belong to C06)"},
 };
 }
